@@ -119,23 +119,27 @@ def digitString (s : Str) : Except Err Int :=
   | some n => .ok n
   | none => .error .parse
 
+/-- the type dispatch of `GroupAddress.__init__`: the value assigned to `self.raw` -/
+def gaRaw (v : Val) : Except Err Int :=
+  match v with
+  | .int n => .ok n                    -- `int(address)` (fix commit: bool / IntEnum become plain int)
+  | .ga r => .ok (r : Int)
+  | .str s => if isdigit s then digitString s else gaStringToInt s
+  | _ => .error .parse                 -- "Invalid type"
+
 /-- `GroupAddress(address)` → raw -/
-def gaParse (v : Val) : Except Err Nat := do
-  let raw ← match v with
-    | .int n => pure n
-    | .ga r => pure (r : Int)
-    | .str s => if isdigit s then digitString s else gaStringToInt s
-    | _ => .error .parse
-  rangeCheck raw
+def gaParse (v : Val) : Except Err Nat := gaRaw v >>= rangeCheck
+
+/-- the type dispatch of `IndividualAddress.__init__` -/
+def iaRaw (v : Val) : Except Err Int :=
+  match v with
+  | .int n => .ok n
+  | .ia r => .ok (r : Int)
+  | .str s => if isdigit s then digitString s else iaStringToInt s
+  | _ => .error .parse
 
 /-- `IndividualAddress(address)` → raw -/
-def iaParse (v : Val) : Except Err Nat := do
-  let raw ← match v with
-    | .int n => pure n
-    | .ia r => pure (r : Int)
-    | .str s => if isdigit s then digitString s else iaStringToInt s
-    | _ => .error .parse
-  rangeCheck raw
+def iaParse (v : Val) : Except Err Nat := iaRaw v >>= rangeCheck
 
 /-- `GroupAddress.main/middle/sub` and `__str__` under notation `fmt` -/
 def gaMain (raw : Nat) : Nat := (raw >>> 11) &&& gaMaxMain
@@ -193,14 +197,18 @@ inductive DevAddr where
   | iga (raw : Str)
   deriving DecidableEq, Repr
 
+/-- `isinstance(address, str | InternalGroupAddress)` -/
+def isStrOrIga : Val → Bool
+  | .str _ | .iga _ => true
+  | _ => false
+
 /-- `parse_device_group_address(address)` -/
 def parseDevice (v : Val) : Except Err DevAddr :=
   match gaParse v with
   | .ok raw => if raw == 0 then .error .parse else .ok (.ga raw)
   | .error .value => .error .value          -- only CouldNotParseAddress is caught
   | .error .parse =>
-    let strOrIga := match v with | .str _ | .iga _ => true | _ => false
-    if strOrIga then
+    if isStrOrIga v then
       match igaParse v with
       | .ok r => .ok (.iga r)
       | .error e => if e != .invalidPrefix then .error .parse /- internal_ex -/ else .error .parse /- ex -/
